@@ -632,6 +632,25 @@ func propC14TwoCalls(t *rapid.T) {
 		}
 		return out
 	}
+	if rapid.IntRange(0, 3).Draw(t, "abortedCallFirst") == 0 {
+		// an earlier sugared call (on any logger of the process) that never completed: after a bare error, a pair with
+		// a non-string key whose value panics when the diagnostic about it is recorded. The caller recovers; the calls
+		// that follow are none the wiser.
+		other := zap.New(zapcore.NewCore(zapcore.NewJSONEncoder(zapcore.EncoderConfig{MessageKey: "m"}), &memSink{}, zapcore.DebugLevel), zap.ErrorOutput(&memSink{})).Sugar()
+		func() {
+			defer func() { _ = recover() }()
+			other.Infow("aborted", errors.New("bare error seen first"), 42, c08PanicObj{}, "dangling")
+		}()
+		func() {
+			defer func() { _ = recover() }()
+			other.Errorw("aborted", errors.New("bare error seen first"), c08PanicObj{})
+		}()
+		func() {
+			defer func() { _ = recover() }()
+			other.With(errors.New("bare error seen first"), 42, c08PanicObj{}).Info("aborted")
+		}()
+		logs.TakeAll()
+	}
 	call(mode1, "first", a1)
 	first = false
 	n1 := logs.Len()
